@@ -11,7 +11,11 @@ type Pool struct {
 	ctx    context.Context
 	cancel context.CancelFunc
 
+	// runM serialises Run and Stop; stateM guards running, ctx, cancel and ch
+	// against Send, which may be called at any time and from any goroutine.
 	runM      sync.Mutex
+	stateM    sync.RWMutex
+	running   bool
 	lazySendM sync.Mutex
 	listM     sync.Mutex
 
